@@ -19,7 +19,9 @@ import (
 
 	"github.com/xelaj/mtproto"
 	"github.com/xelaj/mtproto/internal/encoding/tl"
+	"github.com/xelaj/mtproto/internal/mtproto/messages"
 	"github.com/xelaj/mtproto/internal/mtproto/objects"
+	"github.com/xelaj/mtproto/internal/transport"
 	"github.com/xelaj/mtproto/verifharness/csched"
 	"github.com/xelaj/mtproto/verifharness/refserver"
 )
@@ -79,20 +81,23 @@ type run struct {
 	random  bool
 	dir     string
 
-	maxID    int64  // highest client msg_id seen at an "idgen" point so far
-	preset   int64  // lastMsgID written into the client before the run (0 = untouched)
-	skew     string // none | ahead1m | ahead1h | just4
-	bumps    int    // sends for which the wall clock read no more than the last id
-	bumpRun  int    // current / longest run of consecutive such sends
-	bumpMax  int
-	blocked  map[string]bool // senders released from "prelock" that did not come back: waiting for the send lock
-	broken   bool            // a second sender got past "prelock" while another one was between "idgen" and its return
-	nprobes  int
-	nblocked int
-	clockV   [][2]string // findings of the per-send clock oracle (key, text)
-	lowWords []uint32    // low 32 bits of the ids that came from the clock
-	seq0     int64       // seq_no the session was started with (0 = untouched)
-	relAt    map[string]int64
+	maxID       int64  // highest client msg_id seen at an "idgen" point so far
+	preset      int64  // lastMsgID written into the client before the run (0 = untouched)
+	skew        string // none | ahead1m | ahead1h | just4
+	bumps       int    // sends for which the wall clock read no more than the last id
+	bumpRun     int    // current / longest run of consecutive such sends
+	bumpMax     int
+	blocked     map[string]bool // senders released from "prelock" that did not come back: waiting for the send lock
+	broken      bool            // a second sender got past "prelock" while another one was between "idgen" and its return
+	nprobes     int
+	nblocked    int
+	clockV      [][2]string // findings of the per-send clock oracle (key, text)
+	lowWords    []uint32    // low 32 bits of the ids that came from the clock
+	seq0        int64       // seq_no the session was started with (0 = untouched)
+	relAt       map[string]int64
+	wireDeliver int // messages the receive loop processed while a caller was parked at "wire"
+	wireSrv     int // server messages sent while a sender was parked at "wire"
+	highSeq     int // server seq_nos with the top bit set
 }
 
 type traceWriter struct{ f *os.File }
@@ -174,6 +179,7 @@ func (r *run) start(idx, ncallers int) {
 	}
 	r.blocked = map[string]bool{}
 	r.relAt = map[string]int64{}
+	r.wrapTransport()
 	for t := 0; t < ncallers; t++ {
 		c := &callerState{name: "c" + strconv.Itoa(t), cmd: make(chan callSpec)}
 		r.callers = append(r.callers, c)
@@ -486,13 +492,13 @@ func (r *run) enabled(actor string) bool {
 			// the lock that orders the writes is not the one the probe went through: whoever has
 			// written and not yet returned still holds it
 			for _, a := range append([]string{r.rx}, callerNames(r)...) {
-				if q := r.sc.Parked(a); a != actor && q != nil && q.Point == "written" {
+				if q := r.sc.Parked(a); a != actor && q != nil && (q.Point == "written" || q.Point == "wire") {
 					return false
 				}
 			}
 		}
 		return true
-	case "written", "dispatch":
+	case "wire", "written", "dispatch":
 		return true
 	case "prerecv":
 		return isRx // the receive loop's own request is an ack: a null-sender is waiting
@@ -530,6 +536,8 @@ func (r *run) onArrival(actor string, ar csched.Arrival) []string {
 			c.active.msgID = ar.ID
 		}
 	case "written":
+		// the frame was observed at "wire"; the rest of the block touched only the sender's own counter
+	case "wire":
 		frames, err := r.srv.WaitFrames(r.nframes+1, watchdog)
 		if err != nil {
 			trouble("frame written by %s did not reach the server: %v", actor, err)
@@ -665,6 +673,30 @@ func (r *run) clk(actor string, id int64) string {
 	return strconv.FormatInt(d/4, 10)
 }
 
+// wireTransport makes the network write itself a scheduling point: the bytes are out (the server can react)
+// but WriteMsg has not returned to sendPacket yet. Whatever sendPacket still does after the write and before its
+// "written" yield is then a block of its own for the scheduler.
+type wireTransport struct{ transport.Transport }
+
+func (w wireTransport) WriteMsg(msg messages.Common, requireToAck bool) error {
+	err := w.Transport.WriteMsg(msg, requireToAck)
+	if h := mtproto.VerifYieldHook; h != nil && err == nil {
+		h("wire", int64(msg.GetMsgID()))
+	}
+	return err
+}
+
+// wrapTransport replaces m.transport (unexported: reflection) by the wrapper. Called while every client
+// goroutine is parked; the reading goroutine keeps the connection it was started with.
+func (r *run) wrapTransport() {
+	f := reflect.ValueOf(r.cl).Elem().FieldByName("transport")
+	if !f.IsValid() || f.Kind() != reflect.Interface {
+		trouble("no transport field in MTProto")
+	}
+	p := (*transport.Transport)(unsafe.Pointer(f.UnsafeAddr()))
+	*p = wireTransport{*p}
+}
+
 // hnow is the harness's own reading of the wall clock in msg_id format (not the tree's GenerateMessageId)
 func hnow() int64 {
 	t := time.Now().UnixNano()
@@ -742,17 +774,19 @@ func (r *run) doProbe(actor string) {
 	// let the overtaker write and return before the overtaken sender continues; a holder that has
 	// already written still owns whatever lock covers the write: it returns first
 	if h := r.lock; h != "" && h != actor {
-		if p := r.sc.Parked(h); p != nil && p.Point == "written" {
-			hs := h
-			if h == r.rx {
-				hs = "rx"
+		for i := 0; i < 2; i++ {
+			if p := r.sc.Parked(h); p != nil && (p.Point == "written" || p.Point == "wire") {
+				hs := h
+				if h == r.rx {
+					hs = "rx"
+				}
+				r.slog("auto-step " + hs)
+				r.doStep(h)
 			}
-			r.slog("auto-step " + hs)
-			r.doStep(h)
 		}
 	}
-	for i := 0; i < 2; i++ {
-		if p := r.sc.Parked(actor); p != nil && (p.Point == "idgen" || p.Point == "written") {
+	for i := 0; i < 3; i++ {
+		if p := r.sc.Parked(actor); p != nil && (p.Point == "idgen" || p.Point == "wire" || p.Point == "written") {
 			r.slog("auto-step " + show)
 			r.doStep(actor)
 		}
@@ -806,6 +840,22 @@ func (r *run) doStep(actor string) {
 			clk = r.clk(actor, ar.ID)
 		}
 		items = r.onArrival(actor, ar)
+		if p.Point == "dispatch" && actor == r.rx {
+			// a message was processed while some request's bytes were out and its WriteMsg had not returned
+			for _, c := range r.callers {
+				if q := r.sc.Parked(c.name); q != nil && q.Point == "wire" {
+					r.wireDeliver++
+					break
+				}
+			}
+		}
+		if p.Point == "wire" {
+			// WriteMsg returns, the sender finishes its block (its own seq_no counter): no shared state changes,
+			// in the model the actor stays where it is ("written, not yet returned")
+			r.record("stutter "+show, strings.Join(items, " "))
+			r.afterUnlock()
+			return
+		}
 	}
 	r.record("step "+show+" "+clk, strings.Join(items, " "))
 	r.afterUnlock()
@@ -914,6 +964,12 @@ func (r *run) build(b *bodySpec) ([]byte, string) {
 
 func (r *run) doSrv(sid int64, seq int32, b *bodySpec) {
 	body, txt := r.build(b)
+	for _, a := range append([]string{r.rx}, callerNames(r)...) {
+		if q := r.sc.Parked(a); q != nil && q.Point == "wire" {
+			r.wireSrv++
+			break
+		}
+	}
 	r.sent = append(r.sent, sentMsg{sid: sid, seq: seq, atFrames: r.nframes})
 	if err := r.srv.Send(refserver.Msg{MsgID: sid, SeqNo: seq, Body: body}); err != nil {
 		trouble("server send: %v", err)
@@ -1117,7 +1173,7 @@ func (r *run) finish() {
 	seq, _, rk, hk := r.cl.VerifSnapshot()
 	sort.Ints(rk)
 	r.out.line("F", idx, fmt.Sprintf("seq=%d table=%d hints=%d", seq, len(rk), len(hk)))
-	r.out.line("X", idx, fmt.Sprintf("skew=%s bumps=%d bumpmax=%d probes=%d blocked=%d broken=%v seq0=%d", r.skew, r.bumps, r.bumpMax, r.nprobes, r.nblocked, r.broken, r.seq0))
+	r.out.line("X", idx, fmt.Sprintf("skew=%s bumps=%d bumpmax=%d probes=%d blocked=%d broken=%v seq0=%d wiresrv=%d wiredeliver=%d highseq=%d", r.skew, r.bumps, r.bumpMax, r.nprobes, r.nblocked, r.broken, r.seq0, r.wireSrv, r.wireDeliver, r.highSeq))
 	r.out.line("E", idx, r.status)
 }
 
